@@ -479,6 +479,22 @@ class Set(ProxyValue):
         return hash_tag_bytes("Value.set", bytes)
 
 
+class FrozenSet(ProxyValue):
+    """
+    Augment builtins.frozenset to support stable hashing.
+    """
+
+    type = frozenset
+    type_name = "builtins.frozenset"
+
+    def get_hash(self, data: Optional[bytes] = None) -> str:
+        # Sort the frozenset to ensure stable serialization and hashing.
+        bytes = pickle_dumps(sorted(self.instance))
+
+        # Use a unique tag to distinguish from hashing a list or a set.
+        return hash_tag_bytes("Value.frozenset", bytes)
+
+
 class EnumType(ProxyValue):
     """
     Augment enum.Enum to support argument parsing with choices.
